@@ -170,7 +170,7 @@ Definition callback_check_code : list dstmt :=
   [DIf (DAtom "c.Insensitive") [DAssign "b" "bytes.ToLower(b)"] []; DIf (DAnd (DAnd (DNot (DEq "c.Contains" """""")) (DAtom "bytes.Contains(b, c.contains())")) (DNot (DAnd (DNot (DEq "c.NotContains" """""")) (DAtom "bytes.Contains(b, c.notContains())")))) [DReturn "true"] []; DIf (DAnd (DAnd (DNot (DEq "c.ContainsRe" "nil")) (DAtom "c.ContainsRe.Match(b)")) (DNot (DAnd (DNot (DEq "c.NotContains" """""")) (DAtom "bytes.Contains(b, c.notContains())")))) [DReturn "true"] []; DReturn "false"].
 (* transport/telnet.go Telnet.handleControlCharResponse *)
 Definition telnet_handle_code : list dstmt :=
-  [DIf (DEq "len(ctrlBuf)" "0") [DIf (DNot (DEq "c" "iac")) [DAssign "t.initialBuf" "append(t.initialBuf, c)"] [DAssign "ctrlBuf" "append(ctrlBuf, c)"]] [DIf (DAnd (DEq "len(ctrlBuf)" "1") (DAtom "util.ByteIsAny(c, []byte{do, dont, will, wont})")) [DAssign "ctrlBuf" "append(ctrlBuf, c)"] [DIf (DEq "len(ctrlBuf)" "1") [DIf (DEq "c" "iac") [DAssign "t.initialBuf" "append(t.initialBuf, c)"] []; DAssign "ctrlBuf" "make([]byte, 0)"] [DIf (DEq "len(ctrlBuf)" "2") [DAssign "cmd" "ctrlBuf[1:2][0]"; DAssign "ctrlBuf" "make([]byte, 0)"; DIf (DAnd (DEq "cmd" "do") (DEq "c" "sga")) [DCall "t.c.Write([]byte{iac, will, c})"] [DIf (DAtom "util.ByteIsAny(cmd, []byte{do, dont})") [DCall "t.c.Write([]byte{iac, wont, c})"] [DIf (DEq "cmd" "will") [DCall "t.c.Write([]byte{iac, do, c})"] [DIf (DEq "cmd" "wont") [DCall "t.c.Write([]byte{iac, dont, c})"] []]]]; DIf (DNot (DEq "writeErr" "nil")) [DReturn "nil, writeErr"] []] []]]]; DReturn "ctrlBuf, nil"].
+  [DIf (DEq "len(ctrlBuf)" "0") [DIf (DNot (DEq "c" "iac")) [DAssign "t.initialBuf" "append(t.initialBuf, c)"] [DAssign "ctrlBuf" "append(ctrlBuf, c)"]] [DIf (DAnd (DEq "len(ctrlBuf)" "1") (DAtom "util.ByteIsAny(c, []byte{do, dont, will, wont})")) [DAssign "ctrlBuf" "append(ctrlBuf, c)"] [DIf (DEq "len(ctrlBuf)" "1") [DIf (DEq "c" "iac") [DAssign "t.initialBuf" "append(t.initialBuf, c)"] []; DAssign "ctrlBuf" "make([]byte, 0)"] [DIf (DEq "len(ctrlBuf)" "2") [DAssign "cmd" "ctrlBuf[1:2][0]"; DAssign "ctrlBuf" "make([]byte, 0)"; DIf (DAnd (DEq "cmd" "do") (DEq "c" "sga")) [DCall "t.c.Write([]byte{iac, will, c}) -> _, writeErr"] [DIf (DAtom "util.ByteIsAny(cmd, []byte{do, dont})") [DCall "t.c.Write([]byte{iac, wont, c}) -> _, writeErr"] [DIf (DEq "cmd" "will") [DCall "t.c.Write([]byte{iac, do, c}) -> _, writeErr"] [DIf (DEq "cmd" "wont") [DCall "t.c.Write([]byte{iac, dont, c}) -> _, writeErr"] []]]]; DIf (DNot (DEq "writeErr" "nil")) [DReturn "nil, writeErr"] []] []]]]; DReturn "ctrlBuf, nil"].
 (* transport/standard.go Standard.openBase *)
 Definition standard_open_base_code : list dstmt :=
   [DAssign "keyCallback" "ssh.InsecureIgnoreHostKey()"; DIf (DAtom "t.SSHArgs.StrictKey") [DIf (DEq "t.SSHArgs.KnownHostsFile" """""") [DReturn "error"] []; DCall "knownhosts.New(t.SSHArgs.KnownHostsFile)"; DIf (DNot (DEq "err" "nil")) [DReturn "err"] []; DAssign "keyCallback" "knownHosts"] []; DAssign "authMethods" "make([]ssh.AuthMethod, 0)"; DIf (DNot (DEq "t.SSHArgs.PrivateKeyPath" """""")) [DCall "os.ReadFile(t.SSHArgs.PrivateKeyPath)"; DIf (DNot (DEq "err" "nil")) [DReturn "err"] []; DCall "ssh.ParsePrivateKey(k)"; DIf (DNot (DEq "err" "nil")) [DReturn "err"] []; DAssign "authMethods" "append(authMethods, ssh.PublicKeys(signer))"] []; DIf (DNot (DEq "a.Password" """""")) [DAssign "authMethods" "append(authMethods, ssh.Password(a.Password), ssh.KeyboardInteractive( func(_, _ string, questions []string, _ []bool) ([]string, error) { answers := make([]string, len(questions)) for i := range answers { answers[i] = a.Password } return answers, nil }, ))"] []; DAssign "cfg" "&ssh.ClientConfig{ User: a.User, Auth: authMethods, Timeout: a.TimeoutSocket, HostKeyCallback: keyCallback, }"; DIf (DAtom "len(t.ExtraCiphers) > 0") [DAssign "cfg.Config.Ciphers" "append(cfg.Config.Ciphers, t.ExtraCiphers...)"] []; DIf (DAtom "len(t.ExtraKexs) > 0") [DAssign "cfg.Config.KeyExchanges" "append(cfg.Config.KeyExchanges, t.ExtraKexs...)"] []; DReturn "t.openSession(a, cfg)"].
@@ -306,7 +306,7 @@ Definition send_interactive_code : list dstmt :=
   [DCall "defer close(cr)"; DRange "e" "events" [DAssign "i" "index of e"; DAssign "prompts" "op.CompletePatterns"; DIf (DNot (DEq "e.ChannelResponse" """""")) [DAssign "prompts" "append(prompts, regexp.MustCompile(e.ChannelResponse))"] [DAssign "prompts" "append(prompts, c.PromptPattern)"]; DAssign "err" "c.Write([]byte(e.ChannelInput), e.HideInput)"; DIf (DNot (DEq "err" "nil")) [DCall "cr <- &result{b: nil, err: err}"; DReturn ""] []; DIf (DAnd (DNot (DEq "e.ChannelResponse" """""")) (DNot (DAtom "e.HideInput"))) [DCall "readUntilF(ctx, []byte(e.ChannelInput))"; DIf (DNot (DEq "err" "nil")) [DCall "cr <- &result{b: nil, err: err}"; DReturn ""] []; DAssign "b" "append(b, nb...)"] []; DAssign "err" "c.WriteReturn()"; DIf (DNot (DEq "err" "nil")) [DCall "cr <- &result{b: nil, err: err}"; DReturn ""] []; DCall "c.ReadUntilAnyPrompt(ctx, prompts)"; DIf (DNot (DEq "err" "nil")) [DCall "cr <- &result{b: nil, err: err}"; DReturn ""] []; DAssign "b" "append(b, pb...)"; DIf (DAnd (DAtom "i < len(events)-1") (DAtom "len(op.CompletePatterns) > 0")) [DAssign "done" "false"; DRange "p" "op.CompletePatterns" [DIf (DAtom "p.Match(pb)") [DAssign "done" "true"; DBreak] []]; DIf (DAtom "done") [DBreak] []] []]; DCall "cr <- &result{b: c.processOut(b, false), err: nil}"].
 (* channel/sendinput.go Channel.SendInputB *)
 Definition send_input_code : list dstmt :=
-  [DCall "NewOperation(opts...)"; DIf (DNot (DEq "err" "nil")) [DReturn "nil, err"] []; DAssign "readUntilF" "c.ReadUntilFuzzy"; DIf (DAtom "op.ExactMatchInput") [DAssign "readUntilF" "c.ReadUntilExplicit"] []; DAssign "cr" "make(chan *result)"; DCall "context.WithTimeout(context.Background(), c.GetTimeout(op.Timeout))"; DCall "defer cancel()"; DRange "go" "once" [DAssign "err" "c.Write(input, false)"; DIf (DNot (DEq "err" "nil")) [DCall "cr <- &result{b: b, err: err}"; DBreak] []; DCall "readUntilF(ctx, input)"; DIf (DNot (DEq "err" "nil")) [DCall "cr <- &result{b: b, err: err}"; DBreak] []; DAssign "err" "c.WriteReturn()"; DIf (DNot (DEq "err" "nil")) [DCall "cr <- &result{b: b, err: err}"; DBreak] []; DIf (DNot (DAtom "op.Eager")) [DIf (DEq "len(op.InterimPromptPatterns)" "0") [DCall "c.ReadUntilPrompt(ctx)"] [DAssign "prompts" "[]*regexp.Regexp{c.PromptPattern}"; DAssign "prompts" "append(prompts, op.InterimPromptPatterns...)"; DCall "c.ReadUntilAnyPrompt(ctx, prompts)"]; DIf (DNot (DEq "readErr" "nil")) [DCall "cr <- &result{b: b, err: readErr}"; DBreak] []; DAssign "b" "append(b, nb...)"] []; DCall "cr <- &result{ b: c.processOut(b, op.StripPrompt), err: nil, }"]; DAssign "r" "<-cr"; DIf (DNot (DEq "r.err" "nil")) [DIf (DAtom "errors.Is(r.err, context.DeadlineExceeded)") [DReturn "nil, fmt.Errorf( ""%w: channel timeout sending input to device"", util.ErrTimeoutError, )"] []; DReturn "nil, r.err"] []; DReturn "r.b, nil"].
+  [DCall "NewOperation(opts...)"; DIf (DNot (DEq "err" "nil")) [DReturn "nil, err"] []; DAssign "readUntilF" "c.ReadUntilFuzzy"; DIf (DAtom "op.ExactMatchInput") [DAssign "readUntilF" "c.ReadUntilExplicit"] []; DAssign "cr" "make(chan *result)"; DCall "context.WithTimeout(context.Background(), c.GetTimeout(op.Timeout)) -> ctx, cancel"; DCall "defer cancel()"; DRange "go" "once" [DAssign "err" "c.Write(input, false)"; DIf (DNot (DEq "err" "nil")) [DCall "cr <- &result{b: b, err: err}"; DBreak] []; DCall "readUntilF(ctx, input)"; DIf (DNot (DEq "err" "nil")) [DCall "cr <- &result{b: b, err: err}"; DBreak] []; DAssign "err" "c.WriteReturn()"; DIf (DNot (DEq "err" "nil")) [DCall "cr <- &result{b: b, err: err}"; DBreak] []; DIf (DNot (DAtom "op.Eager")) [DIf (DEq "len(op.InterimPromptPatterns)" "0") [DCall "c.ReadUntilPrompt(ctx) -> nb, readErr"] [DAssign "prompts" "[]*regexp.Regexp{c.PromptPattern}"; DAssign "prompts" "append(prompts, op.InterimPromptPatterns...)"; DCall "c.ReadUntilAnyPrompt(ctx, prompts) -> nb, readErr"]; DIf (DNot (DEq "readErr" "nil")) [DCall "cr <- &result{b: b, err: readErr}"; DBreak] []; DAssign "b" "append(b, nb...)"] []; DCall "cr <- &result{ b: c.processOut(b, op.StripPrompt), err: nil, }"]; DAssign "r" "<-cr"; DIf (DNot (DEq "r.err" "nil")) [DIf (DAtom "errors.Is(r.err, context.DeadlineExceeded)") [DReturn "nil, fmt.Errorf( ""%w: channel timeout sending input to device"", util.ErrTimeoutError, )"] []; DReturn "nil, r.err"] []; DReturn "r.b, nil"].
 (* the option loops of the constructors (C19) *)
 Definition option_loops : list (string * dstmt) := [
   ("driver/generic/driver.go NewDriver",
